@@ -451,7 +451,7 @@ func (r *runner) runCase(job caseJob, solver *Solver) {
 				}
 			}
 		}()
-		st := &State{heap: newHeap(ex.root), pc: True}
+		st := &State{heap: newHeap(ex.root)}
 		for _, ip := range u.Init {
 			ex.runInit(st, r.byPath[ip])
 		}
